@@ -40,7 +40,7 @@ func (o *Oracles) onReconfEvent(w *World, e *Event) {
 			r.failedGens[e.Ent][e.N] = true
 		}
 	case "PROC_PROCESS":
-		if w.cfg.Scenario == "apply" && o.ap.liveRev != nil && len(o.ap.inFlight) == 0 && len(w.faultFired) == 0 {
+		if w.cfg.Scenario == "apply" && o.ap.liveRev != nil && len(o.ap.inFlight) == 0 && len(w.faultFired) == 0 && !o.ctl.userStopOK && !o.ctl.stopInFlight() {
 			if i := strings.LastIndexByte(e.Note, '|'); i >= 0 {
 				if want, ok := o.ap.liveRev[e.Ent]; ok && e.Note[i+1:] != want && e.Note != "stuck" {
 					w.violate("C16", "running-pipeline-differs-from-config", fmt.Sprintf("processor %s of the running pipeline handles records with settings revision %q while the configuration (Export) says %q: the last apply left the running pipeline and the configuration in disagreement", e.Ent, e.Note[i+1:], want))
